@@ -113,7 +113,7 @@ LAWS = [
     # grading: any permutation of the indices that orders the items is a grading (the documentation says
     # "indices of elements to sort in ascending / descending order" and does not fix the order of ties)
     Law("grade-up", "⇧", 1, lambda xs: sorted(range(len(xs)), key=lambda i: xs[i]), cmp="grade-asc"),
-    Law("grade-down", "⇩", 1, lambda xs: sorted(range(len(xs)), key=lambda i: -xs[i]), cmp="grade-desc"),
+    Law("grade-down", "⇩", 1, lambda xs: sorted(range(len(xs)), key=lambda i: xs[i], reverse=True), cmp="grade-desc"),
     Law("length", "L", 1, lambda xs: len(xs)),
     Law("head", "h", 1, lambda xs: xs[0], pre=lambda xs: len(xs) > 0),
     Law("tail", "t", 1, lambda xs: xs[-1], pre=lambda xs: len(xs) > 0),
@@ -344,6 +344,33 @@ def _str_laws_on(rec, s_, cls, seconds):
                 _do(rec, law.name, [s_, sec], False, cls)
 
 
+# lists whose items are strings / lists: ordering laws must use the items' own order
+ITEM_LAWS = ["sort", "sort-is-permutation", "reverse", "reverse-involution", "uniquify", "grade-up", "grade-down", "counts", "group-consecutive", "prefixes"]
+ITEMS_STR = ["a", "b", "B", "ab", ""]
+ITEMS_LST = [[], [1], [1, 2], [2], [0, 5]]
+
+
+def _item_ok(x):
+    return isinstance(x, str) and len(x) <= 3 or (isinstance(x, list) and len(x) <= 3 and all(isinstance(y, int) and not isinstance(y, bool) for y in x))
+
+
+def _shard_items(rec, arg):
+    shard, nshards, maxlen = arg
+    i = 0
+    for pool in (ITEMS_STR, ITEMS_LST):
+        for L in range(0, maxlen + 1):
+            for tup in itertools.product(pool, repeat=L):
+                i += 1
+                if i % nshards != shard:
+                    continue
+                xs = [list(x) if isinstance(x, list) else x for x in tup]
+                for nm in ITEM_LAWS:
+                    for lazy in (0, 1):
+                        _do(rec, nm, [xs], lazy, "exhaustive-string-and-list-items")
+    if shard == 0:
+        rec.sample({"xs": ["b", "a", "B"], "law": "grade-down", "a valid grading": [0, 1, 2]})
+
+
 def _shard_str(rec, arg):
     shard, nshards, maxlen = arg
     i = 0
@@ -381,6 +408,8 @@ def run(rec, tier, seed):
     maxlen = 3 if quick else 5
     campaign.parallel(rec, _shard_exh, [(s, ns * 2, maxlen) for s in range(ns * 2)])
     rec.exhaustive.append(f"all int lists of length<={maxlen} over -2..3, eager and lazy, items as Python ints and as sympy Integers, x {len(LAWS)} laws x {len(SECOND)} second operands")
+    campaign.parallel(rec, _shard_items, [(s, ns, 3 if quick else 4) for s in range(ns)])
+    rec.exhaustive.append(f"all lists of length<={3 if quick else 4} over 5 short strings and over 5 small int lists x {len(ITEM_LAWS)} ordering / grouping laws")
     campaign.parallel(rec, _shard_str, [(s, ns, 4 if quick else 6) for s in range(ns)])
     rec.exhaustive.append(f"all strings of length<={4 if quick else 6} over 'ab c' x {len(STR_LAWS)} string laws")
     n = 60 if quick else 2500
@@ -399,6 +428,8 @@ def replay(case):
         return check(name, args, False)
     if not isinstance(args[0], list):
         return None
+    if name in ITEM_LAWS and args[0] and all(_item_ok(x) for x in args[0]) and len(args) == 1:
+        return check(name, args, int(case.get("lazy") or 0) if case.get("lazy") in (0, 1) else 0)
     if any(not isinstance(x, int) or isinstance(x, bool) for x in args[0]):
         return None
     law = LAW_BY_NAME[name]
